@@ -286,7 +286,9 @@ StarMap(s, r) ==
     [] s.pc = "called" -> [s |-> To("yielded"), eff |-> Yield(r.v)]
 
 \* itertools.zip_longest(*its, fillvalue=)  [zip_longest_next]
-Fill == Node("fill", <<>>)
+\* the fill value is an object of its own, or the very object that is also the first item
+FillFresh == Node("fill", <<>>)
+Fill == IF cfg.par.fill = "first" /\ NSrc >= 1 /\ Len(cfg.data[1]) >= 1 THEN Item(1, 1) ELSE FillFresh
 ZipLongest(s, r) ==
   LET n == NSrc
       \* continue the row at column i with `active` the still-live sources
@@ -414,16 +416,24 @@ MinMax(s, r, isMax) ==
 Collect(s, r, kind) ==
   LET HasK(acc, k) == \E j \in 1..Len(acc) : acc[j].k = k
       AddSet(acc, x) == IF HasK(acc, x.k) THEN acc ELSE Append(acc, x)
-      \* dict: the source hands out pairs <<x, val(x)>>
+      \* dict: the source hands out pairs <<"k<key of x>", val(x)>>; the first key object stays,
+      \* the last value wins
+      KeyStr(x) == "k" \o ToString(x.k)
       AddDict(acc, x) ==
-        IF \E j \in 1..Len(acc) : acc[j].x.k = x.k
-        THEN [j \in 1..Len(acc) |-> IF acc[j].x.k = x.k THEN [x |-> acc[j].x, last |-> Node("val", <<x>>)] ELSE acc[j]]
-        ELSE Append(acc, [x |-> x, last |-> Node("val", <<x>>)])
+        IF \E j \in 1..Len(acc) : acc[j].x = KeyStr(x)
+        THEN [j \in 1..Len(acc) |-> IF acc[j].x = KeyStr(x) THEN [x |-> acc[j].x, last |-> Node("val", <<x>>)] ELSE acc[j]]
+        ELSE Append(acc, [x |-> KeyStr(x), last |-> Node("val", <<x>>)])
+      \* dict(pairs, k1=kw): the keyword is applied after the pairs (update semantics)
+      WithKw(acc) ==
+        IF kind # "dict" \/ ~cfg.par.kw THEN acc
+        ELSE IF \E j \in 1..Len(acc) : acc[j].x = "k1"
+        THEN [j \in 1..Len(acc) |-> IF acc[j].x = "k1" THEN [x |-> "k1", last |-> Node("kw", <<>>)] ELSE acc[j]]
+        ELSE Append(acc, [x |-> "k1", last |-> Node("kw", <<>>)])
       Add(acc, x) == CASE kind = "set" -> AddSet(acc, x) [] kind = "dict" -> AddDict(acc, x) [] OTHER -> Append(acc, x) IN
   CASE s.pc = "init" -> [s |-> [pc |-> "got", acc |-> <<>>], eff |-> Pull(1)]
     [] s.pc = "got" ->
-         IF r.k = "stop" THEN [s |-> To("end"), eff |-> Return(s.acc)]
-         ELSE IF kind \in {"set", "dict"} /\ Unhashable(r.v) THEN [s |-> To("end"), eff |-> RaiseX("TypeError")]
+         IF r.k = "stop" THEN [s |-> To("end"), eff |-> Return(WithKw(s.acc))]
+         ELSE IF kind = "set" /\ Unhashable(r.v) THEN [s |-> To("end"), eff |-> RaiseX("TypeError")]
          ELSE [s |-> [pc |-> "got", acc |-> Add(s.acc, r.v)], eff |-> Pull(1)]
 
 \* stable sort of a sequence of [x, key] records; reverse keeps equal elements in
@@ -586,7 +596,7 @@ ConfigsOf(t) ==
              a \in {NoneI} \cup 0..(MaxLen + 1), b \in {NoneI} \cup 0..(MaxLen + 2),
              c \in {NoneI} \cup 1..3, d \in {dd \in DataSets(1, K1) : Len(dd[1]) \in {0, 1, MaxLen - 1, MaxLen}}}
     [] t = "zip_longest" ->
-         {[tool |-> t, par |-> NoPar, data |-> d] : d \in UNION {DataSets(n, K1) : n \in 0..MaxSrc}}
+         {[tool |-> t, par |-> [fill |-> f], data |-> d] : f \in {"fresh", "first"}, d \in UNION {DataSets(n, K1) : n \in 0..MaxSrc}}
     [] t = "merge" ->
          UNION {{[tool |-> t, par |-> [key |-> b, rev |-> v], data |-> d] :
                    b \in BOOLEAN,
@@ -606,8 +616,10 @@ ConfigsOf(t) ==
                    v \in {"no", "fresh", "first"}, d \in DataSets(1, IF b THEN K12 ELSE K129)} : b \in BOOLEAN}
     [] t \in {"list", "tuple"} ->
          {[tool |-> t, par |-> NoPar, data |-> d] : d \in DataSets(1, K1)}
-    [] t \in {"set", "dict"} ->
+    [] t = "set" ->
          {[tool |-> t, par |-> NoPar, data |-> d] : d \in DataSets(1, K128)}
+    [] t = "dict" ->
+         {[tool |-> t, par |-> [kw |-> b], data |-> d] : b \in BOOLEAN, d \in DataSets(1, K12)}
     [] t = "sorted" ->
          UNION {{[tool |-> t, par |-> [key |-> b, rev |-> v], data |-> d] :
                    v \in BOOLEAN, d \in DataSets(1, IF b THEN K123 ELSE K129)} : b \in BOOLEAN}
